@@ -1,7 +1,57 @@
-(* C14 -- placeholder until Proofs/C14.v lands. *)
-From Coq Require Import Reals.
-From GV Require Import Model.C14.
+(* C14 -- property theorems only (real-number model; stdlib real axioms appear in the
+   assumptions).  The formulas themselves are tied to the code exactly (Tie/C14.v, rational
+   arithmetic) and through recomputation in the harness oracle. *)
+From Coq Require Import Reals List.
+From GV Require Import Model.C14 Proofs.C14.
 Open Scope R_scope.
+
+(* scaling the cell by k: density / k^3, diffusivities x k^2, amplitudes x k, frequency unchanged *)
+Theorem C14_density_scale : forall n vol k, 0 < k -> vol <> 0 ->
+  particle_density n (k*k*k*vol) = particle_density n vol / (k*k*k).
+Proof. exact density_scale. Qed.
+Print Assumptions C14_density_scale.
+Theorem C14_msd_final_scale : forall dists k, msd_final (map (Rmult k) dists) = k*k * msd_final dists.
+Proof. exact msd_final_scale. Qed.
+Print Assumptions C14_msd_final_scale.
+Theorem C14_diffusivity_scale_cell : forall msd dim t k, dim <> 0 -> t <> 0 ->
+  tracer_diffusivity (k*k*msd) dim t = k*k * tracer_diffusivity msd dim t.
+Proof. exact diffusivity_scale_cell. Qed.
+Print Assumptions C14_diffusivity_scale_cell.
+Theorem C14_amplitudes_scale : forall dist k, 0 < k ->
+  amplitudes (speed (map (Rmult k) dist)) = map (Rmult k) (amplitudes (speed dist)).
+Proof. exact amplitudes_speed_scale. Qed.
+Print Assumptions C14_amplitudes_scale.
+Theorem C14_rstd_scale : forall k l, 0 <= k -> rstd (map (Rmult k) l) = k * rstd l.
+Proof. exact rstd_scale. Qed.
+Print Assumptions C14_rstd_scale.
+Theorem C14_meanfreq_scale_signal : forall P x fs c, P_homogeneous P -> c <> 0 ->
+  rsum (map (fun k => P x k) (seq 0 (nbins x))) <> 0 -> meanfreq P (map (Rmult c) x) fs = meanfreq P x fs.
+Proof. exact meanfreq_scale_signal. Qed.
+Print Assumptions C14_meanfreq_scale_signal.
+Theorem C14_conductivity_scale_cell : forall z msd dim t n vol T k, 0 < k -> vol <> 0 -> dim <> 0 -> t <> 0 -> T <> 0 ->
+  tracer_conductivity z (tracer_diffusivity (k*k*msd) dim t) (particle_density n (k*k*k*vol)) T
+  = tracer_conductivity z (tracer_diffusivity msd dim t) (particle_density n vol) T / k.
+Proof. exact conductivity_scale_cell_full. Qed.
+Print Assumptions C14_conductivity_scale_cell.
+
+(* scaling the time step by s divides diffusivities and frequencies by s *)
+Theorem C14_diffusivity_scale_time : forall msd dim t s, 0 < s -> dim <> 0 -> t <> 0 ->
+  tracer_diffusivity msd dim (s*t) = tracer_diffusivity msd dim t / s.
+Proof. exact diffusivity_scale_time. Qed.
+Print Assumptions C14_diffusivity_scale_time.
+Theorem C14_meanfreq_scale_fs : forall P x fs s, s <> 0 -> meanfreq P x (fs / s) = meanfreq P x fs / s.
+Proof. exact meanfreq_scale_fs. Qed.
+Print Assumptions C14_meanfreq_scale_fs.
+
+(* the vibration amplitudes of an atom sum to its final distance from its starting point *)
+Theorem C14_amplitudes_sum_final_distance : forall dist, rsum (amplitudes (speed dist)) = last dist 0.
+Proof. exact amplitudes_sum_final_distance. Qed.
+Print Assumptions C14_amplitudes_sum_final_distance.
+
+(* atoms that all move identically give a Haven ratio of one *)
 Theorem C14_haven_identical : forall d, d <> 0 -> haven_ratio d d = 1.
-Proof. intros d H. unfold haven_ratio. field. exact H. Qed.
+Proof. exact haven_identical. Qed.
 Print Assumptions C14_haven_identical.
+Theorem C14_weighted_mean_identical : forall (ws : list R) x, rsum ws <> 0 -> rsum (map (fun w => w * x) ws) / rsum ws = x.
+Proof. exact weighted_mean_identical. Qed.
+Print Assumptions C14_weighted_mean_identical.
